@@ -95,7 +95,7 @@ Inductive case :=
 Definition sorted_eqb (a b : list Z) : bool := list_eqb Z.eqb (ZSort.sort a) (ZSort.sort b).
 
 (* numeric: the aggregation is over field values (for count/unique Min and Max are never written) *)
-Definition summ_agrees (scale : Z) (exact numeric : bool) (s : summ) (i : isumm) : bool :=
+Definition summ_agrees (scale : Z) (exact numeric collect : bool) (s : summ) (i : isumm) : bool :=
   (i_total i =? Z.of_N (s_total s)) && (i_ne i =? Z.of_N (s_ne s)) &&
   if (s_total s =? 0)%N || negb numeric then
     match i_samples i with [] => units_is scale (i_sum i) 0 | _ => false end
@@ -103,7 +103,8 @@ Definition summ_agrees (scale : Z) (exact numeric : bool) (s : summ) (i : isumm)
     units_is scale (i_min i) (s_min s) && units_is scale (i_max i) (s_max s) &&
     sum_ok exact scale (i_sum i) (s_sum s) (Z.of_N (s_total s) * Z.max (Z.abs (s_min s)) (Z.abs (s_max s))) &&
     match units_list scale (i_samples i) with
-    | Some us => if s_ovf s then (Z.of_nat (length us) =? Z.of_N max_samples)
+    | Some us => if negb collect then true     (* samples nobody asked for are not an observable *)
+                 else if s_ovf s then (Z.of_nat (length us) =? Z.of_N max_samples)
                  else sorted_eqb us (s_samples s)
     | None => false
     end.
@@ -137,7 +138,7 @@ Definition agg_agrees (scale : Z) (exact : bool) (t : mtree) (q : query) (o : io
   let info (name mid : N) := or_new (lookup (mid, name) (a_bins a)) in
   (length (o_bins o) =? length (a_bins a))%nat &&
   forallb (fun ki => match lookup (fst ki) (a_bins a) with
-                     | Some s => summ_agrees scale exact (is_field_func (q_func q)) s (snd ki)
+                     | Some s => summ_agrees scale exact (is_field_func (q_func q)) (collect_samples q) s (snd ki)
                      | None => false
                      end) (o_bins o) &&
   (o_ne o =? Z.of_N (a_ne a)) && (o_bne o =? Z.of_N bne) &&
@@ -246,7 +247,7 @@ Definition summ_spec (scale : Z) (exact : bool) (q : query) (k : key) (D : list 
              if collect_samples q then
                if (n <=? max_samples)%N then sorted_eqb us vs
                else (N.of_nat (length us) =? max_samples)%N && forallb (fun u => mem_z u vs) us
-             else match us with [] => true | _ => false end
+             else forallb (fun u => mem_z u vs) us   (* not requested: anything, but only real values *)
          | None => false
          end)
   end.
